@@ -1,6 +1,7 @@
 """C05 - Resampling onto any oriented grid matches an independent reference resampler."""
 from __future__ import annotations
 
+import copy as _copy
 import math
 
 import numpy as np
@@ -10,6 +11,7 @@ from hypothesis import strategies as st
 from vlib import gen, ref
 from vlib.case import hash_noise, make_grid, smooth_field, tdtype
 from vlib.core import EPS32, Facet, Skip, Violation, check_close
+from props import c03 as C3  # float64 reference model of grid derivation (State / model_apply), see props/c03.py
 
 PROPERTY = "C05"
 MANIFEST = {
@@ -20,18 +22,33 @@ MANIFEST = {
             "padding. Inside the source field of view every target sample is compared with SimpleITK's ResampleImageFilter "
             "(identity or generated affine world transform) run on a float64 image built directly from the case descriptor; "
             "everywhere (also outside the field of view) it is compared with a numpy multilinear/nearest interpolator evaluated at "
-            "float64 model indices. Identity on the own grid and coordinate-tensor sampling are checked as well. Exploration: no "
-            "absence proof; the derived bound (64 eps32 x condition x intensity range) is 2-4 orders of magnitude below the effect "
-            "of a half-sample shift, a transposed/inverted matrix or a wrong convention.",
+            "float64 model indices. Identity on the own grid (and real resampling of the other images of such a batch) and "
+            "coordinate-tensor sampling are checked as well. Grids are not only built fresh: in the derived_grids facet the source "
+            "and target grids are first used (origin, points, coords, transforms, a checked sample call) and then derived by "
+            "deepali's own methods (resample incl. min/max, resize, reshape, downsample, upsample, pyramid level, Cube.grid, crop, "
+            "pad, center_crop, center_pad, narrow, region_of_interest, pool, align_corners(flag), clone/copy/deepcopy, the "
+            "center/origin/spacing/direction setters in new-grid and in-place form; target chain starting from the target, from "
+            "the derived source or from the source's parent; batches whose items share one Grid object), the reference headers "
+            "being the float64 model of the derivation applied to the descriptors, and the parents are sampled again afterwards. "
+            "The image_dtypes facet stores the image as float16, bfloat16, uint8, int16, int32 or int64 (one case in three with "
+            "a 48-160 sample axis), asserts the result dtype documented by grid_sample and requires half-precision / integer "
+            "results to lie in the interval obtained by rounding (float64 reference of the stored voxel values +- float32 bound) "
+            "to the result dtype, i.e. nothing but the final cast may lose precision. Exploration: no absence proof; the derived "
+            "bound (64 eps32 x condition x intensity range) is 2-4 orders of magnitude below the effect of a half-sample shift, a "
+            "transposed/inverted matrix, a wrong convention or a stale matrix of the grid a grid was derived from.",
     "note": "Trusted: SimpleITK's resampler, the float64 grid model and numpy interpolator of vlib/ref.py (self-tested against "
-            "SimpleITK on a world-coordinate ramp before every run). Nearest-neighbour ties and the ITK inside-test are generated "
-            "around (margins derived from the float64 model index), not tolerated.",
+            "SimpleITK on a world-coordinate ramp before every run), the float64 model of grid derivation of props/c03.py "
+            "(State/model_apply, written from the docstrings, self-tested there and here) and torch's float64 -> float16/bfloat16 "
+            "conversion (monotone; also what the final cast of the result uses). Nearest-neighbour ties, the ITK inside-test and "
+            "derived sizes decided by float32 rounding are generated around or accepted either way, not tolerated.",
     "technique": "property-based testing (Hypothesis) with a differential oracle (SimpleITK resampler) and a float64 numpy "
-                 "reference model; metamorphic identity / coordinate-tensor relations",
+                 "reference model, incl. use-derive-use operation sequences against a float64 model of grid derivation; "
+                 "metamorphic identity / coordinate-tensor relations",
 }
 ASSUMPTIONS = [
     "grids: 2..12 samples per axis (2-D) / 2..7 (3-D), spacing in [0.1, 10], |anchor| <= 200, |det direction| = 1; the target "
-    "centre is constructed inside every source domain",
+    "centre is constructed inside every source domain; derived grids 2..40 (2-D) / 2..14 (3-D) samples per axis; image_dtypes: "
+    "one source axis up to 160 samples",
     "intensities in [0, 100]; bound = range * D * 64 eps32 * ((|c| + extent) / min spacing + max(n, |index|)); nearest exact "
     "away (>= max(0.02, index bound)) from half-integer source indices",
     "padding semantics outside the field of view are those of torch.nn.functional.grid_sample (out-of-range neighbours "
@@ -40,6 +57,15 @@ ASSUMPTIONS = [
     "(1, 2, 3) matrix as an unbatched flow field (recorded observation, not asserted)",
     "sample(own grid with the other align_corners flag) is only required to return unchanged data; which align_corners flag "
     "the returned image carries is not asserted",
+    "derived grids: operations and arguments are those inside the documented domain of props/c03.py (every axis keeps >= 2 "
+    "samples; no upsample of an undetermined fractional size; min_size ties not generated); a derived size that float32 "
+    "rounding decides (resample to a spacing dividing the extent, 'min'/'max') is accepted either way and ends the chain; "
+    "the center/origin/spacing/direction setters change only the named attribute of a grid that stores its centre (class "
+    "docstring), origin(o) places index 0 at o; the align_corners flag of a derived grid is not asserted here (C03 does)",
+    "image dtypes: result dtype as documented by grid_sample (image dtype if floating point or mode nearest, else the dtype of "
+    "the sampling coordinates: float32 for Grid arguments and modules); integer images get padding constants representable "
+    "in their dtype (the cast of a fractional constant is not documented); coordinates are float32 or float64 (half-precision "
+    "coordinate tensors passed by the caller are the caller's choice and not generated); bool images are not generated",
 ]
 
 K = 64.0
@@ -196,6 +222,21 @@ def selftest():
         far = np.full((1, D), -3.0)
         assert np.allclose(ref.interp(noise, far, "linear", 7.5), 7.5) and np.allclose(ref.interp(noise, far, "linear", "zeros"), 0.0)
         assert np.allclose(ref.interp(noise, far, "linear", "border"), noise[(0,) * D])
+        # derivation model of the extra routes: setters / copies, and its conversion to a reference header
+        s0 = C3.State.from_desc(sdesc)
+        m0 = state_model(s0)
+        assert np.allclose(m0.o, ms.o) and np.allclose(m0.A, ms.A) and np.allclose(m0.n, ms.n)
+        o = [1.5, -2.0, 0.25][:D]
+        assert np.allclose(state_model(derive_model(s0, {"op": "set_origin", "value": o})[0]).o, o)
+        s1 = derive_model(s0, {"op": "set_spacing", "value": [2.0] * D})[0]
+        assert np.allclose(s1.c, s0.c) and np.allclose(state_model(s1).s, 2.0) and derive_model(s0, {"op": "deepcopy"})[0] is s0
+        s2 = derive_model(s0, {"op": "resample", "form": "list", "spacing": [float(v) * 0.8 for v in s0.s]})[0]
+        assert np.allclose(s2.c, s0.c) and np.all(s2.extent() >= s0.extent() - 1e-12) and s2.n == [int(math.ceil(v / 0.8 - 1e-9)) for v in s0.n]
+    # rounding helper: exact on representable values, nearest otherwise, monotone
+    x = np.array([0.1, 0.5, 100.03, -3.3, 65.0])
+    assert np.array_equal(round_to(x, torch.float16), x.astype(np.float16).astype(np.float64))
+    assert np.array_equal(round_to(np.array([0.5, 96.0, -2.0]), torch.bfloat16), np.array([0.5, 96.0, -2.0]))
+    assert abs(round_to(np.array([100.3]), torch.bfloat16)[0] - 100.3) <= 0.25 and np.all(np.diff(round_to(np.sort(x), torch.bfloat16)) >= 0)
 
 
 # ---------------------------------------------------------------------------------------
@@ -211,7 +252,7 @@ def max_n(D: int) -> int:
 
 
 @st.composite
-def grid_sets(draw, D: int, N: int, src_mode: str, tgt_mode: str, cover=(0.2, 1.4), mag: float = 200.0):
+def grid_sets(draw, D: int, N: int, src_mode: str, tgt_mode: str, cover=(0.2, 1.4), mag: float = 200.0, ssize=None, tsize=None):
     """Source/target grid descriptors whose domains overlap by construction.
 
     An anchor point is drawn in world space; every source grid (independent spacing/direction/align_corners, common
@@ -222,8 +263,8 @@ def grid_sets(draw, D: int, N: int, src_mode: str, tgt_mode: str, cover=(0.2, 1.
     anchor = np.array(draw(gen.centers(D, mag)), dtype=np.float64)
     ns = N if src_mode == "per_image" else 1
     nt = N if tgt_mode == "per_image" else 1
-    ssize = draw(gen.sizes(D, 2, max_n(D)))
-    tsize = draw(gen.sizes(D, 2, max_n(D)))
+    ssize = draw(gen.sizes(D, 2, max_n(D))) if ssize is None else list(ssize)
+    tsize = draw(gen.sizes(D, 2, max_n(D))) if tsize is None else list(tsize)
     srcs, tgts = [], []
     for _ in range(ns):
         d = draw(gen.directions(D))
@@ -292,9 +333,12 @@ def resample_cases(draw, cover=(0.2, 1.4)):
 class Geometry:
     """Float64 reference quantities for one (source, target) pair."""
 
-    def __init__(self, sdesc, tdesc, mode, src_index=None, extra_world=0.0):
-        self.ms = ref.GridModel.from_desc(sdesc)
-        self.mt = ref.GridModel.from_desc(tdesc)
+    def __init__(self, sdesc, tdesc, mode, src_index=None, extra_world=0.0, models=None):
+        if models is None:
+            self.ms = ref.GridModel.from_desc(sdesc)
+            self.mt = ref.GridModel.from_desc(tdesc)
+        else:  # reference headers modelled elsewhere (derived grids)
+            self.ms, self.mt = models
         self.idx = self.mt.points(self.mt.index_points(), "grid", "grid", self.ms) if src_index is None else src_index
         self.cond = index_cond(self.ms, self.mt, self.idx, extra_world)
         self.idx_bound = K * EPS32 * self.cond
@@ -523,6 +567,17 @@ def run_own_grid(case):
                                        f"image 0 of a batch with different grids sampled on its own grid ({how}) mode={case['mode']}"))
         if len(res.grids()) != N:
             raise Violation("result_grid_count", f"sample({N} grids) returned {len(res.grids())} grids")
+        # the other images do not live on targets[0]: they must really be resampled (no identity short-cut for the batch)
+        tdesc = srcs[0] if how == "rebuilt" else dict(srcs[0], ac=not srcs[0]["ac"])
+        _, ref_pad, pad_value = padding_arg(case["padding"])
+        for b in range(1, N):
+            if not grids_equal(res.grids()[b], targets[0]):
+                raise Violation("result_grid", f"image {b} of the result does not carry its target grid")
+            geo = Geometry(srcs[b], tdesc, case["mode"])
+            r, _, _ = compare(out[b], refdata[b], geo, case["mode"], ref_pad, pad_value,
+                              f"image {b} of a batch with different grids sampled on the grid of image 0 ({how})",
+                              prefix="own_grid_other_image", exact_values=values_exact(case["dtype"], "float32", pad_value))
+            worst = max(worst, r)
         nt = nt and gen.grid_is_oblique(srcs[0])
     return {"ratio": worst if case["mode"] != "nearest" else 0.0, "nontrivial": nt,
             "labels": [f"target={how}", f"via={case['via']}", f"N={N}", f"D={D}", f"ac={srcs[0]['ac']}", f"mode={case['mode']}"]}
@@ -772,6 +827,563 @@ def run_modules(case):
                                                             f"N={N}", f"mode={mode}", f"pad={pad_kind(ref_pad)}", f"tbatch={case['tbatch']}"]}
 
 
+# ---------------------------------------------------------------------------------------
+# facet 6: grids derived by deepali's own methods from grids that were used before
+#
+# A case is a source and a target descriptor plus, for either side, a chain of 0-2 derivation operations.  The grids are
+# built from the descriptors, *used* (origin(), points(), coords(), transform(), a sample call ...), then the derived
+# grids are produced by deepali (Grid.resample / resize / ... / clone) - optionally with the intermediate grid used again
+# between two operations - and finally an image living on the derived source grid is sampled on the derived target grid.
+# The reference headers come from the float64 model of the derivation (props/c03.State / model_apply, which is what
+# the docstrings of the derivation methods promise) applied to the descriptors; deepali's derived grids are never read
+# except for their integer size (needed to allocate the image).  ITK / the numpy interpolator then give the expected data.
+
+COPY_OPS = ("clone", "copy", "deepcopy")
+SETTER_OPS = ("set_center", "set_origin", "set_spacing", "set_direction")
+RESIZE_OPS = ["resample", "resample", "resample", "resize", "resize", "downsample", "upsample", "pyramid", "cube_grid"]
+INDEX_OPS = ["crop", "pad", "center_crop", "center_pad", "narrow", "roi", "pool"]
+OTHER_OPS = ["align_corners", "clone", "copy", "deepcopy"] + list(SETTER_OPS)
+PRIMES = ("origin", "points", "coords", "transform", "index", "domain")
+
+
+def derive_cap(D: int) -> int:
+    return 40 if D == 2 else 14
+
+
+def state_model(stt) -> ref.GridModel:
+    return ref.GridModel(stt.n, stt.s, center=stt.c, direction=stt.R, align_corners=stt.ac)
+
+
+def derive_model(stt, op):
+    """Reference state after one derivation; returns (state, acceptable sizes per axis or None).
+
+    Raises C3.DomainError if the operation is outside the documented domain or its outcome is implementation-defined."""
+    name = op["op"]
+    if name in COPY_OPS:
+        return stt, None
+    if name == "set_center":  # Grid stores its centre: the other attributes stay
+        return stt.with_(c=np.asarray(op["value"], dtype=np.float64)), None
+    if name == "set_origin":  # origin = world position of index 0  =>  centre = origin + A (n - 1) / 2
+        o = np.asarray(op["value"], dtype=np.float64)
+        return stt.with_(c=o + (stt.R * stt.s) @ ((stt.nn() - 1) / 2)), None
+    if name == "set_spacing":
+        return stt.with_(s=np.asarray(op["value"], dtype=np.float64)), None
+    if name == "set_direction":
+        return stt.with_(R=ref.direction_matrix(op["rot"], op["perm"], op["flip"])), None
+    res = C3.model_apply(stt, op)
+    if res.extra.get("skip"):
+        raise C3.DomainError("outcome not determined by the documentation")
+    new = res.states[res.pick if name == "pyramid" else 0]
+    return new, (res.alt_sizes if res.tie and res.alt_sizes else None)
+
+
+def derive_call(g, op):
+    """The same derivation executed by deepali."""
+    name = op["op"]
+    if name == "clone":
+        return g.clone()
+    if name == "copy":
+        return _copy.copy(g)
+    if name == "deepcopy":
+        return _copy.deepcopy(g)
+    if name in SETTER_OPS:
+        attr = name[4:]
+        if name == "set_direction":
+            v = torch.tensor(ref.direction_matrix(op["rot"], op["perm"], op["flip"]), dtype=torch.float64)
+        else:
+            v = [float(x) for x in op["value"]]
+        if op.get("inplace"):
+            return getattr(g, attr + "_")(v)
+        return getattr(g, attr)(v)
+    out = C3.call_op(g, op)
+    if name == "pyramid":
+        out = out[int(op["pick"])]
+    return out
+
+
+def use_grid(g, how: str, other=None):
+    """A use of the grid that has no documented side effect."""
+    D = g.ndim
+    if how == "origin":
+        g.origin()
+    elif how == "points":
+        g.points()
+    elif how == "coords":
+        g.coords()
+        g.coords(align_corners=not g.align_corners())
+    elif how == "transform":
+        g.transform()
+        g.inverse_transform()
+    elif how == "index":
+        g.world_to_index(g.index_to_world([0.0] * D))
+    elif how == "domain":
+        g.same_domain_as(g if other is None else other)
+        g.cube()
+        g.extent()
+
+
+# --- generators -----------------------------------------------------------------------
+
+
+def _acceptable(stt, alt, cap: int) -> bool:
+    hi = [max(a) for a in alt] if alt else stt.n
+    return min(stt.n) >= 2 and max(hi) <= cap
+
+
+def g_resize_small(draw, stt, cap):
+    D = stt.D
+    form = draw(st.sampled_from(["list", "args", "int"]))
+    name = draw(st.sampled_from(["resize", "resize", "reshape"]))
+    top = [max(2, min(cap, 2 * stt.n[d] + 2)) for d in range(D)]
+    if form == "int":
+        v = draw(st.integers(2, min(top)))
+    else:
+        v = [draw(st.integers(2, top[d])) for d in range(D)]
+        if name == "reshape":
+            v = v[::-1]
+    op = {"op": name, "form": form, "ac": draw(st.sampled_from([None, None, True, False]))}
+    op["size" if name == "resize" else "shape"] = v
+    return op
+
+
+def g_resample_small(draw, stt, cap):
+    D = stt.D
+    ext = stt.extent()
+    form = draw(st.sampled_from(["list", "list", "args", "scalar", "str", "str"]))
+    ms = draw(st.sampled_from([None, None, 2]))
+
+    def cells(nmax):
+        return draw(st.integers(2, max(2, nmax))) + draw(st.sampled_from([0.25, 0.5, 0.75, 0.4, 0.0]))
+
+    if form == "str":
+        return {"op": "resample", "form": "str", "spacing": draw(st.sampled_from(["min", "max"])), "min_size": ms}
+    if form == "scalar":
+        return {"op": "resample", "form": "scalar", "spacing": C3._round_sig(float(ext.max()) / cells(min(cap - 1, 2 * max(stt.n) + 3))),
+                "min_size": 2}
+    sp = [C3._round_sig(float(ext[d]) / cells(min(cap - 1, 2 * stt.n[d] + 3))) for d in range(D)]
+    return {"op": "resample", "form": form, "spacing": sp, "min_size": ms}
+
+
+def g_setter(draw, stt, name):
+    D = stt.D
+    op = {"op": name, "inplace": draw(st.booleans())}
+    if name in ("set_center", "set_origin"):
+        rel = np.array(draw(st.lists(gen.qfloat(-0.25, 0.25, 0.01), min_size=D, max_size=D)))
+        p = (stt.c if name == "set_center" else stt.origin()) + (stt.R * stt.s) @ (rel * stt.nn())
+        op["value"] = [round(float(v), 3) for v in p]
+    elif name == "set_spacing":
+        f = draw(st.one_of(gen.logfloat(0.6, 1.6).map(lambda v: [v] * D), st.lists(gen.logfloat(0.6, 1.6), min_size=D, max_size=D)))
+        op["value"] = [_sig(float(s) * k) for s, k in zip(stt.s, f)]
+    else:
+        d = draw(gen.directions(D))
+        op.update(rot=d["rot"], perm=d["perm"], flip=d["flip"])
+    return op
+
+
+def draw_derivation(draw, stt, cap):
+    """One operation inside the domain whose result has 2..cap samples per axis: (op, new state, tie) or None."""
+    for _ in range(4):
+        name = draw(st.sampled_from(draw(st.sampled_from([RESIZE_OPS, RESIZE_OPS, INDEX_OPS, OTHER_OPS]))))
+        if name == "resize":
+            op = g_resize_small(draw, stt, cap)
+        elif name == "resample":
+            op = g_resample_small(draw, stt, cap)
+        elif name in COPY_OPS:
+            op = {"op": name}
+        elif name in SETTER_OPS:
+            op = g_setter(draw, stt, name)
+        else:
+            op = C3.GENERATORS[name](draw, stt)
+        if op is None:
+            continue
+        try:
+            new, alt = derive_model(stt, op)
+        except C3.DomainError:
+            if op.get("ac") is None or op["ac"] is False or op["op"] in SETTER_OPS:
+                continue
+            op = dict(op, ac=False)
+            try:
+                new, alt = derive_model(stt, op)
+            except C3.DomainError:
+                continue
+        if _acceptable(new, alt, cap):
+            return op, new, alt is not None
+    return None
+
+
+def draw_chain(draw, stt, cap, lengths):
+    ops = []
+    for _ in range(draw(st.sampled_from(lengths))):
+        got = draw_derivation(draw, stt, cap)
+        if got is None:
+            break
+        op, stt, tie = got
+        ops.append(op)
+        if tie:  # size decided by float32 rounding: accepted either way, nothing is derived from it afterwards
+            return ops, stt, True
+    return ops, stt, False
+
+
+@st.composite
+def derived_cases(draw):
+    D = draw(gen.dims())
+    cap = derive_cap(D)
+    srcs, tgts = draw(grid_sets(D, 1, "shared", "single", cover=(0.3, 1.4)))
+    sdesc, tdesc = srcs[0], tgts[0]
+    s0 = C3.State.from_desc(sdesc)
+    tgt_from = draw(st.sampled_from(["target", "target", "target", "source", "source", "source_parent"]))
+    src_ops, s1, tie = draw_chain(draw, s0, cap, [0, 1, 1, 1, 2])
+    if tie and tgt_from == "source":
+        tgt_from = "source_parent"
+    base = {"target": C3.State.from_desc(tdesc), "source": s1, "source_parent": s0}[tgt_from]
+    # an in-place setter of the source chain changes the parent object itself
+    if tgt_from == "source_parent":
+        for op in src_ops:
+            if not op.get("inplace"):
+                break
+            base = derive_model(base, op)[0]
+    tgt_ops, _, _ = draw_chain(draw, base, cap, [1, 1, 2] if tgt_from != "target" else [0, 1, 1, 2])
+    primes = draw(st.sampled_from([["sample"], ["origin"], ["points"], ["transform"], ["index"], ["coords", "domain"],
+                                   ["sample", "points"], ["origin", "coords"], []]))
+    N = draw(st.sampled_from([1, 1, 2]))
+    case = {"D": D, "N": N, "C": draw(st.integers(1, 2)), "src": sdesc, "tgt": tdesc, "tgt_from": tgt_from,
+            "src_ops": src_ops, "tgt_ops": tgt_ops, "prime": primes, "reprime": draw(st.booleans()),
+            "via": draw(st.sampled_from(["Image", "ImageBatch"])) if N == 1 else draw(st.sampled_from(["batch_one_grid", "batch_same_object"])),
+            "mode": draw(st.sampled_from(["linear", "linear", "nearest"])), "padding": draw(paddings())}
+    case.update(draw(content_fields(D)))
+    return case
+
+
+# --- evaluation -----------------------------------------------------------------------
+
+
+class Tracked:
+    """deepali Grid objects and the reference state each of them must have."""
+
+    def __init__(self):
+        self.entries = {}
+        self.undetermined = set()
+        self.span = 0.0
+
+    def put(self, grid, stt):
+        self.entries[id(grid)] = (grid, stt)
+        self.span = max(self.span, stt.W())
+        return grid
+
+    def state(self, grid):
+        return self.entries[id(grid)][1]
+
+
+def derive_chain(tr: Tracked, grid, ops, reprime: bool, side: str, labels):
+    stt = tr.state(grid)
+    for k, op in enumerate(ops):
+        if id(grid) in tr.undetermined:
+            raise Skip("derivation from a grid whose size was decided by float32 rounding")
+        try:
+            new, alt = derive_model(stt, op)
+        except C3.DomainError as e:
+            # only reachable when an operation that returned the grid itself was followed by an in-place setter, so that the
+            # state the generator planned the remaining chain for is not the state of the object
+            raise Skip(f"{op['op']} outside the documented domain for the actual state: {e}") from None
+        if min(new.n) < 2:
+            raise Skip("derived grid with a single sample along an axis")
+        out = derive_call(grid, op)
+        from deepali.core import Grid
+        if not isinstance(out, Grid):
+            raise Violation("derived_grid_type", f"{op['op']} returned {type(out).__name__}")
+        size = tuple(int(v) for v in out.size())
+        if alt is not None:
+            if len(size) != new.D or any(size[i] not in alt[i] for i in range(new.D)):
+                raise Violation("derived_grid_size", f"{op} of grid with size {stt.n}: size {size}, expected one of {alt}")
+            new = new.with_(n=list(size))
+            tr.undetermined.add(id(out))
+        elif size != tuple(new.n):
+            raise Violation("derived_grid_size", f"{op} of grid with size {stt.n}: size {size}, expected {tuple(new.n)}")
+        tr.put(out, new)
+        labels.append(f"{side}:{op['op']}" + ("_inplace" if op.get("inplace") else ""))
+        grid, stt = out, new
+        if reprime and k + 1 < len(ops):
+            use_grid(grid, "origin")
+            use_grid(grid, "coords")
+    return grid
+
+
+def sample_on(case, tr: Tracked, sgrid, tgrid, via: str, tag: str):
+    """Sample an image living on sgrid on tgrid and compare with ITK / numpy on the modelled headers."""
+    from deepali.data import Image, ImageBatch
+
+    D, C = case["D"], case["C"]
+    N = case["N"] if via.startswith("batch") else 1
+    ss, ts = tr.state(sgrid), tr.state(tgrid)
+    ms, mt = state_model(ss), state_model(ts)
+    mode = mode_name(case["mode"])
+    pad, ref_pad, pad_value = padding_arg(case["padding"])
+    dt = tdtype(case["dtype"])
+    sshape, tshape = tuple(ss.n[::-1]), tuple(ts.n[::-1])
+    data = torch.tensor(content(dict(case, N=N), sshape), dtype=dt)
+    refdata = data.double().numpy()
+    kw = {}
+    if case["mode"] is not None:
+        kw["mode"] = case["mode"]
+    if pad is not None:
+        kw["padding"] = pad
+    if via == "Image":
+        res = Image(data[0], sgrid).sample(tgrid, **kw)
+        if not isinstance(res, Image):
+            raise Violation("result_type", f"Image.sample(Grid) returned {type(res).__name__}")
+        out, out_grids = res.tensor().unsqueeze(0), [res.grid()]
+    else:
+        batch = ImageBatch(data, sgrid if via != "batch_same_object" else [sgrid] * N)
+        res = batch.sample(tgrid if via != "batch_same_object" else [tgrid] * N, **kw)
+        if not isinstance(res, ImageBatch):
+            raise Violation("result_type", f"ImageBatch.sample(grid) returned {type(res).__name__}")
+        out, out_grids = res.tensor(), list(res.grids())
+    if tuple(out.shape) != (N, C) + tshape:
+        raise Violation(f"{tag}_result_shape", f"sampled data has shape {tuple(out.shape)}, expected {(N, C) + tshape}")
+    if len(out_grids) != N:
+        raise Violation("result_grid_count", f"sampling {N} images returned {len(out_grids)} grid(s)")
+    # own grid up to the align_corners flag: documented short-cut returns the image itself (flag of the result not asserted)
+    own = ss.n == ts.n and all(np.allclose(getattr(ss, a), getattr(ts, a), rtol=1e-4, atol=1e-6) for a in ("s", "c", "R"))
+    for i, g in enumerate(out_grids):
+        if not (g == tgrid and (own or g.align_corners() == tgrid.align_corners())):
+            raise Violation(f"{tag}_result_grid", f"image {i} of the result does not carry the target grid")
+    geo = Geometry(None, None, mode, models=(ms, mt), extra_world=tr.span)
+    out_np = out.detach().double().numpy()
+    worst, n_valid = 0.0, 0
+    for b in range(N):
+        r, nv, _ = compare(out_np[b], refdata[b], geo, mode, ref_pad, pad_value,
+                           f"{tag}: {via}.sample image {b} mode={case['mode']} padding={case['padding']} "
+                           f"source size {ss.n} target size {ts.n}", prefix=tag,
+                           exact_values=values_exact(case["dtype"], "float32", pad_value))
+        worst = max(worst, r)
+        n_valid += nv
+    return worst, n_valid
+
+
+def run_derived(case):
+    sdesc, tdesc = case["src"], case["tgt"]
+    tr = Tracked()
+    S0 = tr.put(make_grid(sdesc), C3.State.from_desc(sdesc))
+    T0 = tr.put(make_grid(tdesc), C3.State.from_desc(tdesc))
+    labels = [f"D={case['D']}", f"tgt_from={case['tgt_from']}", f"via={case['via']}", f"mode={mode_name(case['mode'])}",
+              "prime=" + ("+".join(case["prime"]) or "none"), f"reprime={case['reprime']}"]
+    worst = 0.0
+    for how in case["prime"]:
+        if how == "sample":
+            r, _ = sample_on(case, tr, S0, T0, "Image", "derived_parent_before")
+            worst = max(worst, r)
+        else:
+            use_grid(S0, how, T0)
+            use_grid(T0, how, S0)
+    S1 = derive_chain(tr, S0, case["src_ops"], case["reprime"], "src", labels)
+    base = {"target": T0, "source": S1, "source_parent": S0}[case["tgt_from"]]
+    T1 = derive_chain(tr, base, case["tgt_ops"], case["reprime"], "tgt", labels)
+    r, n_valid = sample_on(case, tr, S1, T1, case["via"], "derived")
+    worst = max(worst, r)
+    # the grids the derived ones came from still mean what they meant (or what an in-place setter made of them)
+    if S1 is not S0 or T1 is not T0:
+        r, _ = sample_on(case, tr, S0, T0, "Image", "derived_parent_after")
+        worst = max(worst, r)
+    if S1 is not S0 and T1 is not T0:
+        r, _ = sample_on(case, tr, S0, T1, "Image", "derived_parent_source")
+        worst = max(worst, r)
+    derived = bool(case["src_ops"] or case["tgt_ops"])
+    if case["tgt_from"] == "target":
+        geom_nt = pair_nontrivial(sdesc, tdesc)
+    else:
+        geom_nt = gen.grid_is_oblique(sdesc) and gen.grid_is_anisotropic(sdesc)
+    nt = derived and bool(case["prime"]) and geom_nt and n_valid >= 8
+    if not case["src_ops"]:
+        labels.append("src:none")
+    if not case["tgt_ops"]:
+        labels.append("tgt:none")
+    labels.append("valid>=8" if n_valid >= 8 else "valid<8")
+    return {"ratio": worst if mode_name(case["mode"]) != "nearest" else 0.0, "nontrivial": nt, "labels": labels}
+
+
+# ---------------------------------------------------------------------------------------
+# facet 7: image dtypes (half precision, integer) and long axes
+#
+# grid_sample documents: "The data type of the returned tensor is data.dtype if it is a floating point type or
+# mode="nearest". Otherwise, the output data type matches grid.dtype".  Sampling coordinates are float32 (grids) or what
+# the caller passes; the stored voxel values (already rounded to the image dtype) are the input.  The result must therefore
+# be the float32 interpolation of those values, rounded once to the result dtype: with e the float64 reference value and
+# b the float32 bound used everywhere else in this module, out must lie in [round(e - b), round(e + b)] (rounding to the
+# result dtype is monotone).  Nothing else may lose precision - in particular not the coordinates.
+
+HALF_EPS = {"float16": 2.0 ** -10, "bfloat16": 2.0 ** -7}
+INT_DTYPES = ("uint8", "int16", "int32", "int64")
+
+
+def xdtype(name: str) -> torch.dtype:
+    return getattr(torch, name)
+
+
+def round_to(x: np.ndarray, dt: torch.dtype) -> np.ndarray:
+    """float64 values rounded to dtype dt (torch's own conversion, the same one deepali's final cast uses)."""
+    return torch.from_numpy(np.ascontiguousarray(x, dtype=np.float64)).to(dt).double().numpy()
+
+
+def compare_cast(out: np.ndarray, refdata: np.ndarray, geo: Geometry, mode: str, ref_pad, pad_value, dtype_name: str, what: str,
+                 prefix: str):
+    """As compare(), for results stored in a half-precision or integer dtype: interval test after rounding."""
+    D = geo.ms.D
+    rng = value_range(refdata, pad_value)
+    dt = xdtype(dtype_name)
+    if mode == "nearest":
+        b = 0.0 if not pad_value else value_bound(refdata, pad_value, "linear", False)
+    else:
+        b = value_bound(refdata, pad_value, "linear", False) + rng * D * geo.idx_bound
+    if dtype_name in INT_DTYPES:
+        b = 0.0  # nearest neighbour of integers, integer padding constant: (v - c) + c is exact in float32
+    worst = 0.0
+    valid = geo.inside & geo.stable
+    for c in range(refdata.shape[0]):
+        cands = [(ref.interp(refdata[c], geo.idx, mode, ref_pad), geo.stable, f"{prefix}_vs_reference_{mode}_padding_{pad_kind(ref_pad)}")]
+        if valid.any():
+            itk = itk_resample(geo.ms, refdata[c], geo.mt, mode)
+            cands.append((itk, valid & np.isfinite(itk), f"{prefix}_vs_itk_{mode}"))
+        for e, m, kind in cands:
+            o, e = out[c][m], e[m]
+            if o.size == 0:
+                continue
+            if not np.all(np.isfinite(o)):
+                raise Violation(kind + ":nonfinite", f"{what} channel {c}: non-finite result")
+            lo, hi = round_to(e - b, dt), round_to(e + b, dt)
+            bad = (o < lo) | (o > hi)
+            if bad.any():
+                i = int(np.argmax(np.where(bad, np.abs(o - e), -1.0)))
+                raise Violation(kind, f"{what} channel {c}: {int(bad.sum())} of {o.size} samples outside the rounded interval; worst: actual "
+                                      f"{o[i]:.9g}, float64 reference {e[i]:.9g}, float32 bound {b:.3g}, admissible [{lo[i]:.9g}, {hi[i]:.9g}] "
+                                      f"in {dtype_name}")
+            slack = b + HALF_EPS.get(dtype_name, 0.0) * np.maximum(np.abs(e), 1e-3) + 1e-12
+            worst = max(worst, float((np.abs(o - e) / slack).max()))
+    return worst, int(valid.sum())
+
+
+def long_sizes(draw, D: int, top: int):
+    """Source size with one long axis (coordinate precision matters there), short other axes."""
+    k = draw(st.integers(0, D - 1))
+    L = draw(st.one_of(st.integers(48, 96), st.integers(48, top)))
+    other = 6 if D == 2 else 3
+    return [L if d == k else draw(st.integers(2, other)) for d in range(D)]
+
+
+def dtype_cases(top: int):
+    @st.composite
+    def cases(draw):
+        D = draw(gen.dims())
+        N = draw(st.sampled_from([1, 1, 2]))
+        dtype = draw(st.sampled_from(["float16", "float16", "float16", "bfloat16", "bfloat16", "bfloat16", "uint8", "int16", "int32", "int64",
+                                      "float32", "float64"]))
+        long_axis = draw(st.integers(0, 2)) == 0
+        ssize = long_sizes(draw, D, top) if long_axis else None
+        srcs, tgts = draw(grid_sets(D, 1, "shared", "single", cover=(0.3, 1.6), ssize=ssize))
+        route = draw(st.sampled_from(["Image.sample", "ImageBatch.sample", "Image.sample(coords)", "ImageBatch.sample(coords)", "sample_image",
+                                      "grid_sample", "SampleImage", "AlignImage"]))
+        if route.startswith("Image."):
+            N = 1
+        if dtype in INT_DTYPES:  # padding constants representable in the image dtype
+            padding = draw(st.one_of(st.just("zeros"), st.none(), st.just("border"), st.integers(0, 120).map(lambda v: {"int": v}),
+                                     st.integers(0, 120).map(float)))
+        else:
+            padding = draw(paddings())
+        case = {"D": D, "N": N, "C": draw(st.integers(1, 2)), "src": srcs, "tgt": tgts, "route": route, "long": long_axis,
+                "coords_dtype": draw(st.sampled_from(["float32", "float32", "float64"])),
+                "coords_batch": draw(st.sampled_from(["one", "N"])),
+                "mode": draw(st.sampled_from(["linear", "linear", "nearest"])), "padding": padding}
+        case.update(draw(content_fields(D)))
+        case["dtype"] = dtype
+        return case
+
+    return cases
+
+
+def run_dtypes(case):
+    from deepali import modules as M
+    from deepali.core import functional as U
+    from deepali.data import Image, ImageBatch
+
+    D, N, C = case["D"], case["N"], case["C"]
+    sdesc, tdesc = case["src"][0], case["tgt"][0]
+    mode = case["mode"]
+    route = case["route"]
+    pad, ref_pad, pad_value = padding_arg(case["padding"])
+    name = case["dtype"]
+    dt = xdtype(name)
+    sshape, tshape = tuple(sdesc["size"][::-1]), tuple(tdesc["size"][::-1])
+    raw = content(case, sshape)
+    if name in INT_DTYPES:
+        raw = np.floor(raw)
+    data = torch.tensor(raw, dtype=torch.float64).to(dt)  # the stored voxel values are the input of the property
+    data0 = data.clone()
+    refdata = data.double().numpy()
+    sgrid, tgrid = make_grid(sdesc), make_grid(tdesc)
+    geo = Geometry(sdesc, tdesc, mode)
+    kw = {"mode": mode}
+    if pad is not None:
+        kw["padding"] = pad
+    uses_coords = route in ("Image.sample(coords)", "ImageBatch.sample(coords)", "sample_image", "grid_sample")
+    cdt_name = case["coords_dtype"] if uses_coords else "float32"
+    if uses_coords:
+        cube = geo.mt.points(geo.mt.index_points(), "grid", cube_axes(sdesc["ac"]), geo.ms)
+        nb = N if case["coords_batch"] == "N" and route != "Image.sample(coords)" else 1
+        coords = torch.tensor(np.stack([cube] * nb, 0), dtype=tdtype(cdt_name))
+    if route == "Image.sample":
+        out = Image(data[0], sgrid).sample(tgrid, **kw).tensor().unsqueeze(0)
+    elif route == "ImageBatch.sample":
+        out = ImageBatch(data, sgrid).sample(tgrid, **kw).tensor()
+    elif route == "Image.sample(coords)":
+        out = Image(data[0], sgrid).sample(coords[0], **kw).unsqueeze(0)
+    elif route == "ImageBatch.sample(coords)":
+        out = ImageBatch(data, sgrid).sample(coords, **kw)
+    elif route == "sample_image":
+        out = U.sample_image(data, coords.reshape(nb, -1, D), align_corners=sdesc["ac"], **kw)
+        out = out.reshape(tuple(out.shape[:2]) + tshape)
+    elif route == "grid_sample":
+        out = U.grid_sample(data, coords if case["coords_batch"] == "N" else coords[0], align_corners=sdesc["ac"], **kw)
+    else:
+        mkw = dict(sampling=mode)
+        if pad is not None:
+            mkw["padding"] = pad
+        else:
+            ref_pad, pad_value = ("zeros", 0.0) if route == "SampleImage" else ("border", None)  # documented defaults
+        mod = getattr(M, route)(tgrid, sgrid, **mkw)
+        if route == "SampleImage":
+            x = geo.mt.points(geo.mt.index_points(), "grid", cube_axes(tdesc["ac"]))
+            out = mod(torch.tensor(x, dtype=torch.float32), data)
+        else:
+            out = mod(None, data)
+    if not isinstance(out, torch.Tensor):
+        raise Violation("dtype_result_type", f"{route} returned {type(out).__name__}")
+    if not torch.equal(data, data0):
+        raise Violation("input_modified", f"{route} modified the {name} image data in place")
+    if tuple(out.shape) != (N, C) + tshape:
+        raise Violation("dtype_result_shape", f"{route}: result shape {tuple(out.shape)}, expected {(N, C) + tshape}")
+    # documented result dtype
+    exp_name = name if (name not in INT_DTYPES or mode == "nearest") else cdt_name
+    if out.dtype != xdtype(exp_name):
+        raise Violation("dtype_result_dtype", f"{route}: {name} image, mode={mode}, {cdt_name} coordinates: result dtype {out.dtype}, "
+                                              f"documented {xdtype(exp_name)}")
+    out_np = out.detach().double().numpy()
+    worst, n_valid = 0.0, 0
+    what = f"{route} {name} image size {sdesc['size']} mode={mode} padding={case['padding']}"
+    for b in range(N):
+        if exp_name in ("float32", "float64"):
+            r, nv, _ = compare(out_np[b], refdata[b], geo, mode, ref_pad, pad_value, f"{what} image {b}", prefix="dtype",
+                               exact_values=values_exact(name, cdt_name, pad_value))
+        else:
+            r, nv = compare_cast(out_np[b], refdata[b], geo, mode, ref_pad, pad_value, exp_name, f"{what} image {b}", "dtype")
+        worst = max(worst, r)
+        n_valid += nv
+    nt = pair_nontrivial(sdesc, tdesc) and n_valid >= 8
+    return {"ratio": worst, "nontrivial": nt,
+            "labels": geometry_labels(case, sdesc, tdesc) + [name, f"route={route}", f"mode={mode}", f"pad={pad_kind(ref_pad)}", f"N={N}",
+                                                            f"coords={cdt_name}" if uses_coords else "coords=grid",
+                                                            "long_axis" if case["long"] else "short_axes",
+                                                            f"result={exp_name}"]}
+
+
 FACETS = [
     Facet("itk_resample", run_resample, strategy=lambda: resample_cases((0.2, 1.4)),
           rule="anchor-constructed overlapping source/target grid sets (target extent 0.2-1.4 x source extent), Image/ImageBatch, shared or "
@@ -798,5 +1410,21 @@ FACETS = [
                "axes in {default, cube, cube_corners, world, grid}; affine generated in the target cube (|E|,|t| <= 0.3) and conjugated "
                "to the module axes by the float64 model; ITK with the equivalent world affine + numpy reference; non-trivial = rotation "
                ">= 5 deg, anisotropy >= 1.5, >= 8 samples compared inside the field of view",
+          quick=500, thorough=8000, shards=16, quick_shards=3),
+    Facet("derived_grids", run_derived, strategy=derived_cases,
+          rule="source and target grids built from descriptors, used (origin / points / coords / transform / index maps / domain / a "
+               "checked sample call), then derived by 0-2 operations per side (resample incl. min/max, resize, reshape, downsample, "
+               "upsample, pyramid level, crop, pad, center_crop, center_pad, narrow, region_of_interest, pool, align_corners(flag), "
+               "clone / copy / deepcopy, center / origin / spacing / direction setters in both the new-grid and the in-place form), "
+               "the target chain starting from the target, the derived source or the source's parent; Image / ImageBatch whose items "
+               "share one Grid object; the parents are sampled again afterwards; non-trivial = some derivation, some prior use, "
+               "oblique anisotropic geometry and >= 8 samples compared with ITK",
+          quick=700, thorough=12000, shards=16, quick_shards=4),
+    Facet("image_dtypes", run_dtypes, strategy=dtype_cases(160),
+          rule="image dtype in {float16, bfloat16, uint8, int16, int32, int64, float32, float64}, one case in three with a source axis "
+               "of 48-160 samples; Image/ImageBatch.sample(grid | coords), sample_image, grid_sample, SampleImage, AlignImage; float32 "
+               "or float64 coordinates; result dtype as documented by grid_sample; half-precision / integer results must lie in the "
+               "interval obtained by rounding (float64 reference +- float32 bound) to the result dtype; non-trivial = rotation >= 5 "
+               "deg, anisotropy >= 1.5, >= 8 samples compared with ITK",
           quick=500, thorough=8000, shards=16, quick_shards=3),
 ]
